@@ -47,7 +47,7 @@ Definition tables : tables := [
       (m_bool, mkM (KRetConst VFalse) 12);
       (m_repr, mkM (KRetConst VStrOther) 13)]);
   ((Named BC), mkC (Some (Named BU)) false [
-      (m_html, mkM KStrOfSelf 14);
+      (m_html, mkM KEscStrOfSelf 14);
       (m_getattr, mkM KGetattrSelf 15);
       (m_getitem, mkM KRetSelf 16)]);
   ((Named BD), mkC (Some (Named BU)) false [
